@@ -26,7 +26,7 @@ POSTCONDITION Post
 CHECK_DEADLOCK FALSE
 """
 
-ALL = "{1,2,3,4,5}"
+ALL = "{1,2,3,4,5,6}"
 
 
 def corrupt(ev, rng):
@@ -57,7 +57,7 @@ def run(ctx):
     gen("key-raw", key="raw", edits="single", maxh=0, extra="KeyOK")
     scripts = []
     # every ordered pair of near-duplicates of each base query (sequence-exhaustive, capacity 2)
-    for b in (1, 2, 3, 4, 5):
+    for b in (1, 2, 3, 4, 5, 6):
         scripts += gen("pairs-b%d" % b, bases="{%d}" % b, maxh=3, emit="ACTION_CONSTRAINT EmitLeaf")
     # every triple inside the family in which the legacy keys collide (eviction in between)
     if not q:
@@ -80,15 +80,15 @@ def run(ctx):
                     pool.append(st)
     for k in range(150 if q else 3000):
         walk = [{"op": "Open", "cap": ctx.rng.choice([1, 2, 3])}]
-        fam = ctx.rng.choice([1, 2, 3, 4, 5, 0])      # mostly inside one base query, sometimes across all
+        fam = ctx.rng.choice([1, 2, 3, 4, 5, 6, 0])      # mostly inside one base query, sometimes across all
         cand = [st for st in pool if fam == 0 or st["v"]["b"] == fam]
         for i in range(12):
             st = dict(ctx.rng.choice(cand))
             st["path"] = ctx.rng.choice(["read", "mut"])
             walk.append(st)
         scripts.append(walk)
-    ctx.assume("queries are 5 base queries over a fixed 4-node graph and their near-duplicates: one spelling edit (keyword case, "
-               "quote kind, blanks/tab/newline/case inside a string literal, identifier case, back-ticks) and/or one separator edit "
+    ctx.assume("queries are 6 base queries over a fixed 4-node graph and their near-duplicates: one spelling edit (keyword case, "
+               "quote kind, blanks/tab/newline/case inside a string literal, identifier case, back-ticks, letter case of a variable / map key / result column) and/or one separator edit "
                "(blanks, tab, newline, CRLF, block comment, line comment with and without its newline) and leading blanks",
                "meaning is defined on tokens: keywords case-insensitive, everything else verbatim; a cache hit is legitimate only for "
                "an entry parsed from a string of the same meaning; key function, capacity handling and eviction order are left open",
